@@ -28,8 +28,8 @@ func propTable() map[string]PropSpec {
 		"data races between the per-shard goroutines of getShardInfos/applyShardsInfo (errgroup closures run synchronously)", "the HTTP/JSON transport between shard.Shard and the sidecar (Shard.APIGet/APIPost are the observation points)"}
 	t["C01"] = PropSpec{
 		ID: "C01", Pkg: coordPkg, NativeDir: "coordinator",
-		Quick:    append([]HarnessRun{H("VGC", 8, 2, 2), H("VRelief", 4, 2, 1), H("VAssign", 4, 2, 2), H("VScaleDown", 4, 2, 1), H("VCycle", 12, 1, 1, 3), H("VCycle", 4, 2, 0, 2), H("VCycle", 6, 2, 1, 32), H("VCycle", 4, 2, 1, 24), H("VTransfer", 4), {Entry: "VUpdateTarget", Pkg: "tkestack.io/kvass/pkg/shard", Args: []int{2}, Cosim: 8}}, lemmas...),
-		Thorough: append([]HarnessRun{H("VGC", 8, 2, 2), H("VGC", 8, 3, 1), H("VGC", 8, 3, 2), H("VRelief", 4, 2, 2), H("VRelief", 4, 3, 1), H("VAssign", 4, 2, 2), H("VAssign", 4, 3, 1), H("VScaleDown", 4, 2, 2), H("VScaleDown", 4, 3, 1), H("VCycle", 16, 1, 1, 3), H("VCycle", 8, 1, 2, 0), H("VCycle", 8, 2, 1, 0), H("VCycle", 4, 3, 0, 2), H("VTransfer", 4), {Entry: "VUpdateTarget", Pkg: "tkestack.io/kvass/pkg/shard", Args: []int{3}, Cosim: 8}}, lemmas...),
+		Quick:    append([]HarnessRun{H("VGC", 8, 2, 2), H("VRelief", 4, 2, 1, 0), H("VRelief", 4, 2, 2, 1), H("VAssign", 4, 2, 2), H("VScaleDown", 4, 2, 1), H("VCycle", 12, 1, 1, 3), H("VCycle", 4, 2, 0, 2), H("VCycle", 6, 2, 1, 32), H("VCycle", 4, 2, 1, 24), H("VTransfer", 4), {Entry: "VUpdateTarget", Pkg: "tkestack.io/kvass/pkg/shard", Args: []int{2}, Cosim: 8}}, lemmas...),
+		Thorough: append([]HarnessRun{H("VGC", 8, 2, 2), H("VGC", 8, 3, 1), H("VGC", 8, 3, 2), H("VRelief", 4, 2, 2, 1), H("VRelief", 4, 3, 1, 0), H("VAssign", 4, 2, 2), H("VAssign", 4, 3, 1), H("VScaleDown", 4, 2, 2), H("VScaleDown", 4, 3, 1), H("VCycle", 16, 1, 1, 3), H("VCycle", 8, 1, 2, 0), H("VCycle", 8, 2, 1, 0), H("VCycle", 4, 3, 0, 2), H("VTransfer", 4), {Entry: "VUpdateTarget", Pkg: "tkestack.io/kvass/pkg/shard", Args: []int{3}, Cosim: 8}}, lemmas...),
 		Required: []string{"gc.removed", "gc.rule1", "c01.reported", "c01.removed", "relief.moved", "assign.placed", "cycle.end"},
 		Prefixes: []string{"C01."},
 		Bounds:   "phase lemmas (gcTargets, alleviateShards, assignNoScrapingTargets, tryScaleDown) from arbitrary well-formed pre-states with S<=2 shards, K<=2 hashes (thorough S<=3); whole runOnce cycles at (S,K) = (1,1) with failing POSTs / ChangeScale and (2,0) (thorough + (1,2), (2,1), (3,0)); every map-iteration order and random pick; loop unwinding 12 with unwinding assertion",
@@ -37,8 +37,8 @@ func propTable() map[string]PropSpec {
 	}
 	t["C04"] = PropSpec{
 		ID: "C04", Pkg: coordPkg, NativeDir: "coordinator",
-		Quick:    append([]HarnessRun{H("VTransfer", 4), H("VRelief", 6, 2, 1), H("VAssign", 6, 2, 2), H("VScaleDown", 6, 2, 2), H("VCycle", 12, 1, 1, 0)}, lemmas...),
-		Thorough: append([]HarnessRun{H("VTransfer", 4), H("VRelief", 6, 2, 2), H("VRelief", 6, 3, 1), H("VAssign", 6, 2, 2), H("VAssign", 6, 3, 2), H("VScaleDown", 6, 2, 2), H("VScaleDown", 6, 3, 1), H("VCycle", 12, 1, 1, 0), H("VCycle", 8, 1, 2, 0), H("VCycle", 8, 2, 1, 8), H("VCycle", 8, 2, 2, 8)}, lemmas...),
+		Quick:    append([]HarnessRun{H("VTransfer", 4), H("VRelief", 6, 2, 1, 0), H("VRelief", 4, 2, 2, 1), H("VAssign", 6, 2, 2), H("VScaleDown", 6, 2, 2), H("VCycle", 12, 1, 1, 0)}, lemmas...),
+		Thorough: append([]HarnessRun{H("VTransfer", 4), H("VRelief", 6, 2, 2, 1), H("VRelief", 6, 3, 1, 0), H("VAssign", 6, 2, 2), H("VAssign", 6, 3, 2), H("VScaleDown", 6, 2, 2), H("VScaleDown", 6, 3, 1), H("VCycle", 12, 1, 1, 0), H("VCycle", 8, 1, 2, 0), H("VCycle", 8, 2, 1, 8), H("VCycle", 8, 2, 2, 8)}, lemmas...),
 		Required: []string{"relief.placed", "assign.placed", "scaledown.placed", "c04.placed", "c04.scalecall"},
 		Prefixes: []string{"C04."},
 		Bounds:   "one lemma per placement site (head relief, process relief, first assignment, scale-down transfer) with S<=2, K<=2 (thorough S<=3); whole cycles at (1,1) (thorough + (1,2), and (2,1), (2,2) with all shards in sync); with and without a head-series limit",
@@ -46,8 +46,8 @@ func propTable() map[string]PropSpec {
 	}
 	t["C05"] = PropSpec{
 		ID: "C05", Pkg: coordPkg, NativeDir: "coordinator",
-		Quick:    []HarnessRun{H("VGC", 8, 2, 1), H("VGC", 8, 2, 2), H("VTransfer", 2), H("VRelief", 4, 2, 1), H("VScaleDown", 4, 2, 1), H("VCycle", 8, 1, 1, 0), H("VCycle", 8, 2, 1, 40), H("VCycle", 4, 2, 1, 24)},
-		Thorough: []HarnessRun{H("VGC", 8, 2, 2), H("VGC", 8, 3, 1), H("VGC", 8, 3, 2), H("VTransfer", 2), H("VCycle", 8, 2, 1, 8), H("VRelief", 4, 2, 2), H("VRelief", 4, 3, 1), H("VScaleDown", 4, 2, 2), H("VScaleDown", 4, 3, 1), H("VCycle", 8, 2, 1, 0), H("VCycle", 8, 2, 2, 8)},
+		Quick:    []HarnessRun{H("VGC", 8, 2, 1), H("VGC", 8, 2, 2), H("VTransfer", 2), H("VRelief", 4, 2, 1, 0), H("VRelief", 4, 2, 2, 1), H("VScaleDown", 4, 2, 1), H("VCycle", 8, 1, 1, 0), H("VCycle", 8, 2, 1, 40), H("VCycle", 4, 2, 1, 24)},
+		Thorough: []HarnessRun{H("VGC", 8, 2, 2), H("VGC", 8, 3, 1), H("VGC", 8, 3, 2), H("VTransfer", 2), H("VCycle", 8, 2, 1, 8), H("VRelief", 4, 2, 2, 1), H("VRelief", 4, 3, 1, 0), H("VScaleDown", 4, 2, 2), H("VScaleDown", 4, 3, 1), H("VCycle", 8, 2, 1, 0), H("VCycle", 8, 2, 2, 8)},
 		Required: []string{"gc.handover", "gc.removed", "relief.moved", "scaledown.moved", "c05.moved", "c05.handover"},
 		Prefixes: []string{"C05."},
 		Bounds:   "gcTargets / relief / scale-down lemmas with S<=2, K<=2 (thorough S<=3); whole cycles at (1,1), (2,1) (thorough (2,1) with every shard kind, (2,2) in sync); the constant 3 of the hand-over rule is taken from README, not from the code",
@@ -66,8 +66,8 @@ func propTable() map[string]PropSpec {
 	}
 	t["C08"] = PropSpec{
 		ID: "C08", Pkg: coordPkg, NativeDir: "coordinator",
-		Quick:    []HarnessRun{H("VCycle", 12, 1, 1, 7), H("VCycle", 6, 2, 0, 4), H("VCycle", 6, 2, 1, 32), H("VAssign", 4, 2, 2), H("VRelief", 4, 2, 1), H("VScaleDown", 4, 2, 1), H("VScaleDown", 4, 3, 1)},
-		Thorough: []HarnessRun{H("VCycle", 12, 1, 1, 7), H("VCycle", 6, 1, 2, 4), H("VCycle", 6, 2, 1, 4), H("VAssign", 4, 3, 2), H("VRelief", 4, 2, 2), H("VRelief", 4, 3, 1), H("VScaleDown", 4, 3, 1)},
+		Quick:    []HarnessRun{H("VCycle", 12, 1, 1, 7), H("VCycle", 6, 2, 0, 4), H("VCycle", 6, 2, 1, 32), H("VAssign", 4, 2, 2), H("VRelief", 4, 2, 1, 0), H("VRelief", 4, 2, 2, 1), H("VScaleDown", 4, 2, 1), H("VScaleDown", 4, 3, 1)},
+		Thorough: []HarnessRun{H("VCycle", 12, 1, 1, 7), H("VCycle", 6, 1, 2, 4), H("VCycle", 6, 2, 1, 4), H("VAssign", 4, 3, 2), H("VRelief", 4, 2, 2, 1), H("VRelief", 4, 3, 1, 0), H("VScaleDown", 4, 3, 1)},
 		Required: []string{"c08.unready", "c08.statusfail", "c08.runtimefail", "c08.hashdiffers", "c08.outofsync", "c08.insync", "c08.heldoutofsync", "assign.placed"},
 		Prefixes: []string{"C08."},
 		Bounds:   "complete request log per shard under the full seven-step health script (ready, status GET, runtime GET, hash, config POST, second runtime GET, hash) at (S,K) = (1,1) incl. failing POSTs, (2,0) (thorough + (1,2), (2,1)); destination-is-in-sync lemmas for every placement site with S<=3",
@@ -221,13 +221,13 @@ func propTable() map[string]PropSpec {
 	hashSubst := map[string]string{"github.com/prometheus/prometheus/model/relabel.Process": discPkg + ".vNoRelabel"}
 	t["C15"] = PropSpec{
 		ID: "C15", Pkg: discPkg, NativeDir: "discovery",
-		Quick:    []HarnessRun{{Entry: "VHash", Args: []int{0}, Subst: hashSubst, Unwind: 40, Cosim: 2}, {Entry: "VHashDedupe", Subst: hashSubst, Unwind: 40, Cosim: 2}},
-		Thorough: []HarnessRun{{Entry: "VHash", Args: []int{0}, Subst: hashSubst, Unwind: 40, Cosim: 4}, {Entry: "VHash", Args: []int{1}, Subst: hashSubst, Unwind: 40, Cosim: 2}, {Entry: "VHashDedupe", Subst: hashSubst, Unwind: 40, Cosim: 4}},
-		Required: []string{"hash.two.runs", "dedupe.same", "dedupe.two", "hash.end"},
+		Quick:    []HarnessRun{{Entry: "VHash", Args: []int{0}, Subst: hashSubst, Unwind: 40, Cosim: 2}, {Entry: "VHash", Args: []int{2}, Subst: hashSubst, Unwind: 40, Cosim: 2}, {Entry: "VHashDedupe", Subst: hashSubst, Unwind: 40, Cosim: 2}},
+		Thorough: []HarnessRun{{Entry: "VHash", Args: []int{0}, Subst: hashSubst, Unwind: 40, Cosim: 4}, {Entry: "VHash", Args: []int{1}, Subst: hashSubst, Unwind: 40, Cosim: 2}, {Entry: "VHash", Args: []int{2}, Subst: hashSubst, Unwind: 40, Cosim: 3}, {Entry: "VHashDedupe", Subst: hashSubst, Unwind: 40, Cosim: 4}},
+		Required: []string{"hash.two.runs", "hash.sensitive", "dedupe.same", "dedupe.two", "hash.end"},
 		Prefixes: []string{"C15."},
-		Bounds:   "targetsFromGroup / populateLabels / targetHash / labelsWithoutConfigParam / supportInvalidLabelName (and labels.New, labels.Builder, sort.Sort, scrape.NewTarget / Target.URL from source) on a group of 1 target (dedupe: 2 targets) with the labels __address__ (concrete, with and without port), foo and an invalid name \"bad-name\" with symbolic values, an optional __meta_ label with a symbolic value, every split of the labels between group and target and every map-iteration order; no relabel rules",
+		Bounds:   "targetsFromGroup / populateLabels / targetHash / labelsWithoutConfigParam / supportInvalidLabelName (and labels.New, labels.Builder, sort.Sort, scrape.NewTarget / Target.URL from source) on a group of 1 target (dedupe: 2 targets) with the labels __address__ (concrete, with and without port), foo and an invalid name \"bad-name\" with symbolic values, an optional __meta_ label with a symbolic value, every split of the labels between group and target and every map-iteration order; no relabel rules; sensitivity: two targets differing only in the (symbolic, different) value of one surviving label - ordinary (foo) or reserved but neither __meta_ nor URL-forming (__tmp_x, __scrape_interval__) - can get different hashes (satisfiability query with the hash functions uninterpreted: holds exactly when the label value reaches the hash input)",
 		Assume:   []string{"xxhash (labels.Labels.Hash) and FNV-64a are uninterpreted functions of exactly what is fed to them (label names and values in order; the formatted label hash; the URL string): equal inputs give equal hashes, nothing is assumed about different inputs", "relabel.Process is the identity (the job has no relabel rules); net.SplitHostPort, CheckTargetAddress and the label-name / label-value validity tests run on concrete strings", "symbolic label values range over non-empty valid UTF-8 strings"},
-		Outside:  []string{"'targets that differ in any label or URL component get different hashes' is collision-freeness of xxhash/FNV and is not a bounded solver query", "stability across processes and restarts beyond independence of iteration order, addresses and time (any such dependence would be an un-stubbed call and abort the path)", "relabel programs (C02)"},
+		Outside:  []string{"'targets that differ in any label or URL component get different hashes' as such is collision-freeness of xxhash/FNV and is not a bounded solver query; what is decided is that every surviving label reaches the hash input (sensitivity clause)", "stability across processes and restarts beyond independence of iteration order, addresses and time (any such dependence would be an un-stubbed call and abort the path)", "relabel programs (C02)"},
 	}
 	return t
 }
